@@ -1075,6 +1075,8 @@ impl Evaluator {
 
     /// See [Evaluator::apply_keyswitching].
     pub fn apply_keyswitching_inplace(&self, encrypted: &mut Ciphertext, keyswitching_key: &KSwitchKeys) {
+        // validate before c1 is cleared below (clearing c1 also erases the seed flag of a seed-compressed ciphertext)
+        self.check_ciphertext(encrypted);
         assert_eq!(keyswitching_key.data().len(), 1);
         assert_eq!(encrypted.size(), 2);
         // due to the semantics of `switch_key_inplace_internal`, we should first get the c0 out
